@@ -32,6 +32,17 @@ var genPokes = false
 // genSelfDestruct enables SELFDESTRUCT frame endings (used by the C05 program family).
 var genSelfDestruct = false
 
+// genPcQueries, when non-empty, sprinkles read-only calls of stateful precompiles over the
+// frames (each such call makes the StateDB flush into the store in the middle of the
+// transaction). Gas then differs from a chain without those precompiles, so in this mode no
+// frame gets a gas limit and no frame ends by consuming all its gas.
+var genPcQueries []pcQuery
+
+type pcQuery struct {
+	to   common.Address
+	data []byte
+}
+
 type pstep struct {
 	kind  string // sstore-set | sstore-clear | log | send-eoa | send-fresh | call | burn
 	slot  uint64
@@ -41,6 +52,7 @@ type pstep struct {
 	fail  evmasm.OnFail
 	child *pnode
 	to    common.Address
+	data  []byte
 	// value transfers (empty calldata: the child only receives) to the same child before / after the call
 	pokeBefore, pokeAfter *big.Int
 	pokeTarget            *pnode // a descendant of child (nil = the child itself)
@@ -84,6 +96,10 @@ func genProg(rng *rand.Rand, depth int, eoas []common.Address, fresh func() comm
 	nsteps := 1 + rng.Intn(4)
 	slot := uint64(0)
 	for i := 0; i < nsteps; i++ {
+		if len(genPcQueries) > 0 && rng.Intn(3) == 0 {
+			q := genPcQueries[rng.Intn(len(genPcQueries))]
+			p.plan = append(p.plan, pstep{kind: "pcquery", to: q.to, data: q.data})
+		}
 		switch k := rng.Intn(9); {
 		case k == 0:
 			slot++
@@ -103,7 +119,7 @@ func genProg(rng *rand.Rand, depth int, eoas []common.Address, fresh func() comm
 			if st.call == evmasm.Call || st.call == evmasm.CallCode {
 				st.val = big.NewInt(int64(rng.Intn(30)))
 			}
-			if rng.Intn(4) == 0 {
+			if rng.Intn(4) == 0 && len(genPcQueries) == 0 {
 				st.gas = uint64(2000 + rng.Intn(60000))
 			}
 			if genPokes && rng.Intn(3) == 0 {
@@ -125,6 +141,9 @@ func genProg(rng *rand.Rand, depth int, eoas []common.Address, fresh func() comm
 	endPick := rng.Intn(9)
 	if genSelfDestruct { // the failing-frame family: more reverts and self-destructs
 		endPick = []int{0, 0, 1, 2, 3, 3, 3, 8, 8, 8}[rng.Intn(10)]
+	}
+	if len(genPcQueries) > 0 {
+		endPick = []int{0, 0, 0, 3, 3, 8, 8, 8}[rng.Intn(8)] // revert / self-destruct / plain return only
 	}
 	switch endPick {
 	case 0:
@@ -167,6 +186,8 @@ func deployProg(n *vn.Node, from vn.Account, p *pnode) ([]common.Address, error)
 			p.steps = append(p.steps, evmasm.SStore{Slot: st.slot, Val: 0})
 		case "log":
 			p.steps = append(p.steps, evmasm.Log{Topic: 42})
+		case "pcquery":
+			p.steps = append(p.steps, evmasm.CallStep{Kind: evmasm.StaticCall, To: st.to, Data: st.data, Fail: evmasm.Ignore})
 		case "send-eoa", "send-fresh":
 			p.steps = append(p.steps, evmasm.CallStep{Kind: evmasm.Call, To: st.to, Value: st.val, Fail: evmasm.Ignore})
 		case "call":
